@@ -854,7 +854,10 @@ func (s *Server) CancelRequest(id string) {
 	verifPoint("srv.cancel.enter", s, id)
 	s.mu.Lock()
 	defer s.mu.Unlock()
-	if s.cancelLocked(id) {
+	if cancel, ok := s.used[id]; ok {
+		// Cancel the handler's context, but keep the ID reserved until the
+		// reply for the request has been delivered.
+		cancel()
 		s.log("Cancelled request %s by client order", id)
 	}
 }
